@@ -65,8 +65,14 @@ def eqFold (ps : List Param) (tbl : List RunEntry) (a b : Elem) : List Nat → O
 def eqTable (ps : List Param) : List RunEntry := runs (·.ty.eqMemcmp) true ps
 def lexTable (ps : List Param) : List RunEntry := runs (·.ty.lexMemcmp) true ps
 
+/-- `(equal_size_one<I>(lhs, rhs) && ...)`: FixedSize fields of different sizes are never equal -/
+def fixedSizesEq : List Param → Elem → Elem → Bool
+  | p :: ps, va :: a, vb :: b => (if p.kind = .fixed then va.length == vb.length else true) && fixedSizesEq ps a b
+  | _, _, _ => true
+
 /-- `reference == reference` -/
-def elemEq (ps : List Param) (a b : Elem) : Option Bool := eqFold ps (eqTable ps) a b (List.range ps.length)
+def elemEq (ps : List Param) (a b : Elem) : Option Bool :=
+  if fixedSizesEq ps a b then eqFold ps (eqTable ps) a b (List.range ps.length) else some false
 
 /-- indices `K` whose entry in the run table is not SKIP (they depend on the list only) -/
 def keyIdx (tbl : List RunEntry) (n : Nat) : List Nat := (List.range n).filter (fun k => tbl.getD k .skip != .skip)
@@ -108,20 +114,24 @@ def allEq (ps : List Param) : List Elem → List Elem → Option Bool
     | some true => allEq ps as bs
     | r => r
 
-/-- `vector == vector` -/
-def vecEq (ps : List Param) (a b : List Elem) : Option Bool :=
+/-- the sizes the FixedSize fields of a vector were constructed with (`get_fixed_size<I>()` for every I) -/
+def fixedSizesOf (ps : List Param) (fs : List Nat) : List Nat :=
+  ((List.zip ps fs).filter (fun pf => pf.1.kind = .fixed)).map (·.2)
+
+/-- `vector == vector`; `fa`, `fb`: the fixed sizes of the two vectors (one entry per parameter) -/
+def vecEq (ps : List Param) (fa fb : List Nat) (a b : List Elem) : Option Bool :=
   if ps.all (·.ty.eqMemcmp) && storageAl ps == 1 then
     if a.isEmpty then some b.isEmpty
     else if b.isEmpty then some false
-    else some (vecBytes ps a == vecBytes ps b)
+    else some (fixedSizesOf ps fa == fixedSizesOf ps fb && vecBytes ps a == vecBytes ps b)
   else if a.length == b.length then allEq ps a b else some false
 
 /-- `std::lexicographical_compare(begin, end, other.begin, other.end)` under `elemLt` -/
 def seqLt (ps : List Param) (a b : List Elem) : Bool := lexBy (elemLt ps) a b
 
-/-- `vector < vector` -/
-def vecLt (ps : List Param) (a b : List Elem) : Bool :=
-  if ps.all (·.ty.lexMemcmp) && isFixedOrPlain ps && storageAl ps == 1 then
+/-- `vector < vector`; `fa`, `fb`: the fixed sizes of the two vectors -/
+def vecLt (ps : List Param) (fa fb : List Nat) (a b : List Elem) : Bool :=
+  if ps.all (·.ty.lexMemcmp) && isFixedOrPlain ps && storageAl ps == 1 && fixedSizesOf ps fa == fixedSizesOf ps fb then
     if a.isEmpty then !b.isEmpty
     else if b.isEmpty then false
     else lexLt (vecBytes ps a) (vecBytes ps b)
@@ -131,7 +141,7 @@ end Cntgs
 
 namespace Cntgs
 /-- `vector.hpp:324-345` -/
-def vecGt (ps : List Param) (a b : List Elem) : Bool := vecLt ps b a
-def vecLe (ps : List Param) (a b : List Elem) : Bool := !vecLt ps b a
-def vecGe (ps : List Param) (a b : List Elem) : Bool := !vecLt ps a b
+def vecGt (ps : List Param) (fa fb : List Nat) (a b : List Elem) : Bool := vecLt ps fb fa b a
+def vecLe (ps : List Param) (fa fb : List Nat) (a b : List Elem) : Bool := !vecLt ps fb fa b a
+def vecGe (ps : List Param) (fa fb : List Nat) (a b : List Elem) : Bool := !vecLt ps fa fb a b
 end Cntgs
